@@ -110,6 +110,7 @@ LosslessAfterCancelInv == P!LosslessAfterCancel(cfg, Obs)
 CompleteInv == P!Complete(cfg, Obs)
 Settle1Inv == P!Settle1(cfg, Obs)
 NewSettleInv == P!NewSettle(cfg, Obs)
+NewDeliversInv == P!NewDelivers(cfg, Obs)
 NoPanicInv == P!NoPanic(cfg, Obs)
 \* structural: everything sent is somewhere, in order (in buffer, queue, out buffer, received)
 Conservation == obs.got \o egb \o mq \o inb = obs.sent
